@@ -39,6 +39,9 @@ CollMacros   == {"[.-.]", "[.^.]", "[.].]", "[=a=]"}
 AlphaClass   == {"a", "1", "-", "[", "]", "!"}
 StrFull      == {"a", "b", ".", "-", "]", "^"}
 StrSmall     == {"a", ".", "-", "]"}
+StrTiny      == {"a", ".", "-"}
+AlphaSh      == {"a", ".", "*", "?", "[", "]", "-"}
+LitSh        == {"*", "[", "-"}
 StrClass     == {"a", "A", "1", "-", " ", "]"}
 StrWide      == {"a", "b", ".", "-", "]", "^", "[", "\\", "*", "!"}
 NoChars      == {}
